@@ -58,6 +58,11 @@ Definition p_no_second_copy (c : ccase) : bool :=
                      || Nat.leb (count_item it (tc_block_items (c_out c))) (count_item it (tc_block_items (c_src c))))
           (moved_items (c_stub c) (c_src c)).
 
+(* no empty `if TYPE_CHECKING:` block is added (re-application with nothing left to confine) *)
+Definition empty_blocks (m : module) : nat :=
+  List.length (filter (fun s => match s with SIfTC [] => true | _ => false end) m).
+Definition p_no_empty_block (c : ccase) : bool := Nat.leb (empty_blocks (c_out c)) (empty_blocks (c_src c)).
+
 (* ---- modelled-libcst assumptions of the theorems, checked on every case *)
 Definition libcst_ok (c : ccase) : bool :=
   embedsb (c_src c) (c_applied c)
@@ -83,7 +88,7 @@ Definition verdict (c : ccase) : nat :=
   if negb (wf_case c) then 3 else
   let sh := kf_shadow (c_stub c) (c_src c) in
   let ex := kf_apply_extra (c_stub c) (c_src c) (c_applied c) in
-  let hard := p_head c && p_under_tc c && p_needed c && p_tc_name c && p_no_second_copy c in
+  let hard := p_head c && p_under_tc c && p_needed c && p_tc_name c && p_no_second_copy c && p_no_empty_block c in
   let place := p_in_place c && p_bound c in
   let nonew := p_no_new_runtime c in
   if hard && place && nonew then (if model_ok c && libcst_ok c then 0 else 1)
@@ -95,7 +100,7 @@ Definition verdict (c : ccase) : nat :=
 Definition clauses (c : ccase) : list bool :=
   [p_head c; p_under_tc c; p_no_new_runtime c; p_in_place c; p_bound c; p_needed c;
    model_ok c; libcst_ok c; kf_shadow (c_stub c) (c_src c); kf_apply_extra (c_stub c) (c_src c) (c_applied c);
-   p_tc_name c; p_no_second_copy c].
+   p_tc_name c; p_no_second_copy c; p_no_empty_block c].
 
 (* the clause vector as one number (leading 1, then one bit per clause, first clause = most significant) *)
 Definition clause_code (c : ccase) : nat :=
